@@ -7,6 +7,7 @@ import (
 	"math"
 	"runtime"
 	"sort"
+	"strings"
 
 	"golang.org/x/image/font"
 	xsfnt "golang.org/x/image/font/sfnt"
@@ -15,12 +16,14 @@ import (
 	"seehuhn.de/go/postscript/funit"
 	"seehuhn.de/go/sfnt"
 	"seehuhn.de/go/sfnt/cff"
+	"seehuhn.de/go/sfnt/cmap"
 	"seehuhn.de/go/sfnt/glyf"
 	"seehuhn.de/go/sfnt/glyph"
 	"seehuhn.de/go/sfnt/header"
 
 	"verif/explore"
 	"verif/gen"
+	"verif/refcmap"
 	"verif/refsfnt"
 	"verif/run"
 )
@@ -521,6 +524,85 @@ func c03Scaled(r *run.Run) {
 		})
 }
 
+// ---- sizes and layouts inside tables that the container walk cannot see, judged by the second reader ----
+
+func c03Inner(r *run.Run) {
+	r.Explore(explore.Config{Name: "C03.inner-layout"},
+		"complete fonts whose inner table layout varies: CFF / CID fonts with copyright lengths 0..400 (offset sizes of the CFF INDEX structures), glyf fonts with every non-empty subset of four cmap subtables holding the same two or three characters in 262 (format 0), 32 / 40 (format 4), 14 / 16 (format 6) and 28 / 40 (format 12) bytes under Macintosh, Unicode and Windows keys (offsets of the encoding records): the file is a well-formed container, the library reads it back, and golang.org/x/image agrees on glyph count, character mapping, advances and outlines",
+		func(c *explore.Ctx) {
+			var f *sfnt.Font
+			var spec *gen.FontSpec
+			var desc string
+			if c.Bool("cmap layouts") {
+				f, spec = FontFromChoices(gen.FontOpts{NoMeta: true, NoLayout: true}, gen.KindGlyf, 2, 0, 0, 1)
+				// all subtables hold the same mapping (the second reader may prefer another subtable than the library)
+				three := c.Bool("three characters")
+				var f0 cmap.Format0
+				f0.Data['A'], f0.Data['B'] = 1, 2
+				four := cmap.Format4{'A': 1, 'B': 2}
+				sixGlyphs := []uint16{1, 2} // format 6 has no encoder in the library: assembled independently
+				twelve := cmap.Format12{'A': 1, 'B': 2}
+				if three {
+					f0.Data['C'], four['C'], twelve['C'] = 5, 5, 5 // not consecutive: one more segment / group
+					sixGlyphs = []uint16{1, 2, 5}
+				}
+				six := refcmap.Assemble6('A', sixGlyphs, 0, false)
+				t := cmap.Table{}
+				if c.Bool("(1,0) format 0") {
+					t[cmap.Key{PlatformID: 1, EncodingID: 0}] = f0.Encode(0)
+				}
+				if c.Bool("(0,3) format 6") {
+					t[cmap.Key{PlatformID: 0, EncodingID: 3}] = six
+				}
+				if c.Bool("(3,1) format 4") {
+					t[cmap.Key{PlatformID: 3, EncodingID: 1}] = four.Encode(0)
+				}
+				if c.Bool("(3,10) format 12") {
+					t[cmap.Key{PlatformID: 3, EncodingID: 10}] = twelve.Encode(0)
+				}
+				if len(t) == 0 {
+					c.Skip("no subtable")
+				}
+				f.CMapTable = t
+				var keys []string
+				for k, d := range t {
+					keys = append(keys, fmt.Sprintf("(%d,%d):%d bytes", k.PlatformID, k.EncodingID, len(d)))
+				}
+				sort.Strings(keys)
+				desc = "glyf font, cmap " + strings.Join(keys, " ")
+				best, _ := t.GetBest()
+				spec.Runes = map[rune]glyph.ID{}
+				for _, ru := range []rune{'A', 'B', 'C'} {
+					if best != nil {
+						spec.Runes[ru] = best.Lookup(ru)
+					}
+				}
+			} else {
+				kind := gen.KindCFF + c.Choose(2, "CID-keyed")
+				f, spec = FontFromChoices(gen.FontOpts{NoMeta: true, Compact: true}, kind, 2, 0, 0, 0, 1)
+				n := c.Choose(401, "copyright length")
+				f.Copyright = strings.Repeat("Copyright notice. ", 30)[:n]
+				desc = fmt.Sprintf("%s font, copyright of %d characters", gen.KindNames[kind], n)
+			}
+			c.Sample(func() any { return desc })
+			c.Nontrivial()
+			out, err := writeFont(f)
+			if err != nil {
+				c.Fail("C03.write-err", "Font.Write inner layout", "Write failed: %v (%s)", err, desc)
+				return
+			}
+			c.Outcome(out)
+			if _, probs := refsfnt.Walk(out); len(probs) > 0 {
+				c.Fail("C03.wellformed", "Font.Write inner layout", "%s (%s)", probs[0], desc)
+				return
+			}
+			if _, err := sfnt.Read(bytes.NewReader(out)); err != nil {
+				c.Fail("C03.readback", "Font.Write inner layout", "the library cannot read the file it wrote: %v (%s)", err, desc)
+			}
+			crossCheckXImage(c, "C03", f, spec.Runes, out)
+		})
+}
+
 // ---- concurrent writers: interleavings at the destination's Write calls ----
 
 type c03Job struct {
@@ -613,6 +695,7 @@ func init() {
 		c03Container(r)
 		c03Fonts(r)
 		c03Scaled(r)
+		c03Inner(r)
 		// one P: the goroutines of the interleaving exploration share per-P caches (sync.Pool), as on a loaded machine
 		old := runtime.GOMAXPROCS(1)
 		c03Interleaved(r)
